@@ -78,6 +78,10 @@ class MessageExtractor:
                 code = node.code.code
             elif isinstance(node, parsetree.Expression):
                 code = node.code.code
+                if node.escapes.strip():
+                    # scan the arguments of filters too; the parentheses
+                    # keep a multi-line expression tokenizable
+                    code = "(" + code + "|" + node.escapes + ")"
             else:
                 continue
 
